@@ -726,6 +726,10 @@ func identityOracle(texts []string, calls []callRes) *Violation {
 		if !calls[i].bySrc {
 			return &Violation{Class: "identity-partition-missing-by-id", Detail: fmt.Sprintf("text %s is answered with a partition that GetJournalTags does not find (or finds with other tags)", show(texts[i]))}
 		}
+		if calls[i].denoted != nil && len(calls[i].denoted) == 0 {
+			// "at least one tag value is expected to define the source": the empty set is no partition
+			return &Violation{Class: "identity-empty-set-answered", Detail: fmt.Sprintf("text %s denotes the empty tag set and is answered with a partition", show(texts[i]))}
+		}
 		if calls[i].denoted != nil && mapKey(calls[i].retMap) == mapKey(calls[i].denoted) {
 			good[i] = true
 			continue
@@ -1409,6 +1413,21 @@ func describeOracle(srv *Server, denoted map[string]map[string]string) *Violatio
 			idOf = mm[2]
 		}
 	}
+	// SHOW PARTITIONS pages: OFFSET o LIMIT l lists min(l, n-o) partitions (none from o = n on), each of them a written set
+	if n := before; n > 0 {
+		for _, pg := range [][3]int{{0, 1000, n}, {0, 1, 1}, {n - 1, 5, 1}, {n, 5, 0}, {n + 1, 5, 0}, {0, n, n}, {1, n, n - 1}} {
+			out, err := srv.Exec(fmt.Sprintf("SHOW PARTITIONS OFFSET %d LIMIT %d", pg[0], pg[1]))
+			got := 0
+			for _, l := range strings.Split(out, "\n") {
+				if showLine.MatchString(l) {
+					got++
+				}
+			}
+			if err != nil || got != pg[2] {
+				return &Violation{Class: "e2e-show-partitions-page", Detail: fmt.Sprintf("%d partitions: SHOW PARTITIONS OFFSET %d LIMIT %d lists %d (err %v), expected %d", n, pg[0], pg[1], got, err, pg[2])}
+			}
+		}
+	}
 	if out, err := srv.Exec(`DESCRIBE PARTITION {zz9="never,written"}`); err == nil {
 		return &Violation{Class: "e2e-describe-unwritten-set-found", Detail: show(out)}
 	}
@@ -1808,7 +1827,14 @@ func mkOps(rp Replay) (*Case, error) {
 				continue // the operation it refers to was not answered: nothing to delete
 			}
 			gops = append(gops, GApp("HDel", GNat(ids[src])))
-			_, gerr := svc.GetJournalTags(src, true)
+			var gerr error
+			if !within(10*time.Second, func() { _, gerr = svc.GetJournalTags(src, true) }) {
+				// a record that stays in the exclusively locked state makes GetJournalTags spin
+				cs.Oracle = &Violation{Class: "ops-call-does-not-return", Detail: fmt.Sprintf("operation %d of %s: GetJournalTags of the partition %d does not return within 10 s", i, showOps(rp.Ops), ids[src])}
+				cs.Coq = GApp("KPanicked", GStr("tindex.GetJournalTags"), GStr(src))
+				cs.NonTrivial = true
+				return cs, nil
+			}
 			if gerr != nil {
 				obs = append(obs, GSome(GNone))
 				if live[src] {
@@ -1820,8 +1846,12 @@ func mkOps(rp Replay) (*Case, error) {
 				fail(i, "the deleted partition %d is found by its id", ids[src])
 			}
 			if !svc.LockExclusively(src) {
-				svc.Release(src)
-				return nil, fmt.Errorf("ops: LockExclusively(%s) refused with one reader", src)
+				// one reader (this harness) and no exclusive holder: a refusal means the record is in a state no
+				// operation of this history can have left it in (e.g. a deleted partition still known by its id)
+				fail(i, "LockExclusively of the partition %d, acquired once, is refused", ids[src])
+				quiet(func() { svc.Release(src) })
+				obs = append(obs, GNone)
+				continue
 			}
 			if err := svc.Delete(src); err != nil {
 				fail(i, "Delete of the exclusively locked partition %d: %v", ids[src], err)
